@@ -361,6 +361,7 @@ class RaceHarness(Harness):
             "OS threads (executor = virtual loop of the worker process, pre-emption at Event/Queue/Future operations)",
             "Elasticsearch (SimES)",
             "track plugin sim-params/sim-op (registered through Rally's plugin API)",
+            "cluster-level telemetry (switched off by the static-response seam; C09 adds one stand-in internal device that fails at benchmark stop while the cluster refuses connections)",
         ]
         rules = {
             "C01": "cases = generated schedule (1-6 elements, leaf/parallel, over-commit, completed-by task/any with eternal siblings, iteration/time/source bounded, "
@@ -368,7 +369,7 @@ class RaceHarness(Harness):
             "lateness, service times and executor pre-emption; non-trivial = at least 2 workers and 2 schedule elements; distinct = distinct digests of the message + wire history",
             "C07": "cases as C01 with short post-processing intervals, over-commit and executor pre-emption biased up, a share with down-sampling or a tiny sample queue; "
             "non-trivial = at least 2 workers or 2 rows and at least 10 samples; distinct = distinct history digests",
-            "C09": "cases as C01 plus exactly one terminal fault (request error under on-error=abort, connection error outlasting transport retries, parameter source / runner "
+            "C09": "cases as C01 plus exactly one terminal fault (request error under on-error=abort, connection error outlasting transport retries - also refused only after retried time-outs -, parameter source / runner "
             "raising, metrics store raising during post-processing or at race control, failing track preparation, killed worker process, user interrupt) at a seeded position or anchored on the n-th protocol message of a kind; a systematic "
             "sweep places every kind at early/middle/late positions of a fixed small race; non-trivial = the fault fired; distinct = distinct history digests",
             "C11": "cases as C01 with names/types/tags from small alphabets and 1-3 include or exclude filters biased to match all tasks of a parallel element; step 1 compares "
